@@ -27,6 +27,7 @@ EXPLANATION = (
     "order with that file's own header and data lengths, and totals are sums over it. Since F51 R1 also requires the reader's constructor to leave the stream at the first sample (_seek2hdr(0) after the base constructor). "
     "Not decided: equality with a byte-array model over "
     "arbitrary operation histories (needs executing histories)."
+    ' Since the round-2 hunt: the byte stride of a sample that every positioning seek multiplies by is exact - no truncation, or byte-misaligned samples are refused (R2 samp_stride:exact; fails on the current tree = known finding K01).'
 )
 FIO = "sigpyproc.io.fileio"
 READERS = "sigpyproc.readers"
